@@ -50,6 +50,7 @@ def base_scenarios():
     out.append(('reg_unreg_deliver', [(s1, 0)], [(2, s1, 1), (2, s1, 2)], [(2, s1, 3), (3, 1, 0), (1, s1, 0)]))
     out.append(('three_mutators', [(s1, 0), (s2, 0)], [(2, s1, 1)], [(2, s2, 2), (3, 0, 0), (2, s1, 3), (1, s1, 0)]))
     out.append(('stale_unregister', [(s1, 0)], [(2, s1, 1), (3, 0, 0), (2, s1, 2), (3, 0, 0)], [(1, s1, 0), (2, s1, 3)]))
+    out.append(('sticky', [(s1, 0)], [(2, s1, 1)], [(1, s1, 0), (3, 0, 0), (1, s1, 0)]))
     out.append(('other_signal', [(s1, 0), (s2, 0)], [(2, s1, 1), (2, s2, 2)], [(1, s1, 0), (3, 1, 0), (1, s2, 0)]))
     return out
 
@@ -89,6 +90,12 @@ def gen(seed, tier, want=None):
                 i, j, l = rnd.randint(0, 20), rnd.randint(1, 25), rnd.randint(0, 20)
                 first = rnd.randint(0, 1)
                 scen.append(Scenario(name, disp, setup, acts, [first] * i + [1 - first] * j + [first] * l + [1 - first] * 60 + [first] * 60))
+        if name == 'sticky':
+            # D1 holds the old snapshot; the remover publishes, flips the generation and spins; D2 enters through the NEW
+            # generation's slot and stays inside; D1 leaves; now the remover must finish on its own (sticky seen flags)
+            for a in range(5, 9):
+                for b in range(7, 14):
+                    scen.append(Scenario(name, disp, setup, acts, [0] * a + [1] * b + [2] * 7 + [0] * 8 + [1] * 60 + [2] * 20))
         if n == 3:
             # two families of block schedules: P^i Q* P^j R* P*  (P paused twice, Q and R run to completion in between)
             # and P^i Q^j P* R* Q*  (P and Q each paused once), for all role assignments
@@ -111,8 +118,21 @@ def gen(seed, tier, want=None):
 
 def run_impl(scen, timeout=900):
     exe = common.bin_path('ls_registry')
-    rc, out, _ = common.sh([exe], input=('\n'.join(s.line() for s in scen) + '\n').encode(), timeout=timeout)
-    lines = out.split('\n')
+    # the driver forks one child per scenario; spread the scenarios over several driver processes
+    import concurrent.futures
+    nproc = max(1, min(12, len(scen) // 200 + 1))
+    chunks = [scen[i::nproc] for i in range(nproc)]
+
+    def work(ch):
+        rc, out, _ = common.sh([exe], input=('\n'.join(s.line() for s in ch) + '\n').encode(), timeout=timeout)
+        return out.split('\n')[:len(ch)] + ['!missing'] * max(0, len(ch) - len(out.split('\n')))
+    with concurrent.futures.ThreadPoolExecutor(nproc) as ex:
+        outs = list(ex.map(work, chunks))
+    lines = [None] * len(scen)
+    for c, o in enumerate(outs):
+        for j, l in enumerate(o[:len(chunks[c])]):
+            lines[c + j * nproc] = l
+    lines = [l if l is not None else '!missing' for l in lines]
     res = []
     for i, s in enumerate(scen):
         l = lines[i] if i < len(lines) else '!missing'
@@ -330,6 +350,17 @@ def mon_c02(s, r):
 
 def mon_c18(s, r):
     viol = []
+    if s.name == 'sticky' and len(s.sched) > 40 and s.sched[-21] == 1:
+        # the remover (A1) got 60 steps in a row after D1 (A0) had left while D2 (A2) stays inside the new slot
+        tr = r['trace']
+        d1_last = max([i for i, l in enumerate(tr) if l[0] == 0] or [-1])
+        ret = [i for i, l in enumerate(tr) if l[0] == 1 and l[1] == 23]
+        d2_after = [i for i, l in enumerate(tr) if l[0] == 2 and i > d1_last]
+        d2_inside = any(l[0] == 2 and l[1] == 0 and l[2] == 1 for l in tr[:d1_last + 1]) and not any(l[0] == 2 and l[1] == 4 for l in tr[:d1_last + 1])
+        d1_held_old = any(l[0] == 0 and l[1] == 0 and l[2] == 1 and l[4] == 0 for l in tr) and any(l[0] == 1 and l[1] == 2 and l[2] == 1 for l in tr[:d1_last])
+        if d2_inside and d1_held_old and ret and d2_after and ret[0] > d2_after[0]:
+            viol.append(('spins-on-new-generation-reader', ret[0], 'the remover A1 did not finish within 60 of its own steps after the only delivery that held the OLD '
+                         'snapshot had returned; it kept spinning while a delivery that entered after the generation flip was inside (seen flags not sticky)'))
     if r.get('stuck'):
         viol.append(('stuck', -1, 'activities can make no progress: finished=%s' % r['finished']))
     for a, f in enumerate(r['finished']):
